@@ -157,7 +157,9 @@ func BlockInvalid(n *simnode.Node, b *nom.AccountBlock, enforceFrom uint64, rege
 		if regen != nil {
 			exp := regen(send)
 			if exp == nil {
-				return "regenerate", "an independent node cannot generate a receive for this send now"
+				// the independent node holds no receive for this send and cannot generate one in its
+				// current pool state (e.g. it lost its pool in a restart): nothing to compare with
+				return "", ""
 			}
 			eb, _ := exp.Serialize()
 			gb, _ := b.Serialize()
